@@ -6,7 +6,7 @@ From Coq Require Import List ZArith NArith String Bool.
 From SCC Require Import Lang.CoreSyn Model.Backend Model.Uniquify Model.Focus Model.FocusCheck
      Sem.AxSem Sem.CoreSem Proof.SubstProof Proof.FocusTheorems Proof.FocusExtra Proof.FocusExamples Proof.FocusSem
      Proof.FocusKont Proof.FocusRel Proof.FocusSim Proof.FocusRun Proof.FocusFrag Proof.FocusPres Proof.FocusPresExamples
-     Proof.UqAeq Proof.UqPres Proof.UqCompose.
+     Proof.UqAeq Proof.UqPres Proof.UqCompose Proof.FocusRefute.
 From SCC Require Import Model.FocusGuard.
 Import ListNotations.
 
@@ -103,10 +103,13 @@ Proof. exact subst_not_free_stmt. Qed.
 Print Assumptions C03_subst_sim_not_free_identity.
 
 (* ---- semantic preservation ----------------------------------------------------------------------
-   Full statement (NOT proved; evaluated by modelrun `focus` on every case: run_core on the input vs
+   Full statement (evaluated by modelrun `focus` on every case: run_core on the input vs
    run_fs on the Rust output, verdict classes order-of-effects / semantic-mismatch): a run of the
    original that ends defined (exit value or undefined arithmetic) is reproduced, prints in the same
-   order, by the focused program. *)
+   order, by the focused program.  As stated - with the shape predicates as the only hypotheses - it is
+   FALSE (C03_focus_preserves_statement_refuted at the end of this file: an ill-typed witness); it is
+   proved with the additional hypotheses cs_prog and clash_free_prog / sg_prog that typing implies
+   (C03_uniquify_focus_preserves_partial / _fragment). *)
 Definition C03_focus_preserves_statement : Prop :=
   forall p q args fuel, pre_check p = true -> focus_wf p = true -> focus_prog p = Ok q ->
     let o := run_core fuel p args in
@@ -248,3 +251,18 @@ Theorem C03_uniquify_focus_preserves_fragment :
     exists fuel', run_fs fuel' q args = run_core fuel p args.
 Proof. exact uniquify_focus_preserves_guarded. Qed.
 Print Assumptions C03_uniquify_focus_preserves_fragment.
+
+(* ---- the unrestricted statement is false ---------------------------------------------------------------
+   C03_focus_preserves_statement has only the SHAPE predicates pre_check and focus_wf as hypotheses; they
+   admit ill-typed programs, and on those focusing does change the behaviour on the reference machine.
+   Witness (Proof/FocusRefute.v; a covariable of type i64 used as a consumer of a codata type):
+       codata T { }   def main() { exit (mu a:i64. < mu b:T. (print 7; <5 | b>) | a >_T) }
+   before: prints 7, exit 5;  after focusing: stuck ("exit-operand": the operand is an unforced thunk).
+   It is exactly a kind clash (clash_free_prog = false on the witness).  The true statements are the
+   _partial/_fragment theorems above; a Core type system would replace their clash/guard hypotheses.
+   (The input is ill-typed, so this is no defect of the compiler: the property quantifies over well-typed
+   programs.  But H_focus of Props/C01.v, which repeats this statement, is false as a universal
+   hypothesis; C01_compile_correct_focus_discharged_partial does not use it.) *)
+Theorem C03_focus_preserves_statement_refuted : ~ C03_focus_preserves_statement.
+Proof. exact focus_preserves_statement_refuted. Qed.
+Print Assumptions C03_focus_preserves_statement_refuted.
